@@ -1,0 +1,12 @@
+//go:build !verif
+
+package evaluator
+
+import "evylang.dev/evy/pkg/parser"
+
+// verifState is empty unless built with the verif tag, see verif_on.go.
+type verifState struct{}
+
+func (e *Evaluator) verifIntercept(parser.Node) bool { return false }
+
+func (e *Evaluator) verifEval(parser.Node) (value, error) { return nil, nil }
